@@ -553,7 +553,97 @@ def units(tier, seed):
     us.append({'harness': 'client'})
     us.append({'harness': 'client-real-files', 'H': 2, 'caching': True})      # duplicates / permutations through the client cache (last occurrence governs)
     us.append({'harness': 'line-endings'})
+    us.append({'harness': 'list-layouts'})
     return us
+
+
+# ---- list-valued lines: the values read do not depend on how the line is laid out -----------------------------------------------------
+LIST_SEPS = [', ', ',', ' ,', ' , ', ',\t']
+LIST_TRAILS = ['', ',', ', -- a remark', ' -- a remark, with a comma', ' ']
+
+
+def run_list_layouts(unit):
+    """real read_input_file on a real file + real Reservoir.read_parameters: the numeric tokens of the list lines ('Gradients, ..',
+    'Thicknesses, ..') are solver variables; every layout of the same tokens (blank/tab placement around the separating commas, a
+    trailing comma, a trailing '--' remark) must store the values the canonical layout 'Name, a, b, c' stores."""
+    from . import c05, c07
+    from geophires_x import Reservoir as R
+    cfg = {'harness': 'list-layouts', 'entries per list': 3, 'separators': [repr(x) for x in LIST_SEPS], 'trailers': [repr(x) for x in LIST_TRAILS]}
+    log = harness.UnitLog(cfg)
+    S = 3
+    names = [f'Gradient {i + 1}' for i in range(S)] + [f'Thickness {i + 1}' for i in range(S)]
+    rng = {n: ((2, 500) if n.startswith('G') else (0.011, 99)) for n in names}
+    fresh, _, _ = gx.make_source('geophires_x.TDPReservoir', 'TDPReservoir')
+    g0, th0 = list(fresh.gradient.value), list(fresh.layerthickness.value)
+    d = tempfile.mkdtemp(prefix='symx_c12ll_')
+
+    class Lg:
+        def __getattr__(self, k):
+            return lambda *a, **kw: None
+
+    def read(vals, sep, trail, symbolic):
+        toks = {n: (str(vals[n]) if symbolic else repr(float(vals[n]))) for n in names}
+        text = f'Number of Segments, {S}\n'
+        for lname, pre in (('Gradients', 'Gradient'), ('Thicknesses', 'Thickness')):
+            text += lname + sep + sep.join(toks[f'{pre} {i + 1}'] for i in range(S)) + trail + '\n'
+        pth = os.path.join(d, 'in.txt')
+        with open(pth, 'w') as f:
+            f.write(text)
+        entries = {}
+        GU.read_input_file(entries, logger=Lg(), input_file_name=pth)
+        m = c05.base_model(4, S, 2, 2)
+        r = m.reserv
+        r.gradient.value, r.layerthickness.value = list(g0), list(th0)
+        m.InputParameters = entries
+        with contextlib.redirect_stdout(io.StringIO()):
+            if symbolic:
+                with shim.shadow(*(list(c07.param_shadows()) + c05.RES_SHADOWS)):
+                    R.Reservoir.read_parameters(r, m)
+            else:
+                R.Reservoir.read_parameters(r, m)
+        return list(r.gradient.value)[:S] + list(r.layerthickness.value)[:S], text
+
+    def compare(vals, sep, trail, symbolic):
+        ref, _ = read(vals, LIST_SEPS[0], LIST_TRAILS[0], symbolic)
+        try:
+            got, text = read(vals, sep, trail, symbolic)
+        except (ValueError, RuntimeError, IndexError, TypeError) as e:
+            return [(f'list line laid out with separator {sep!r} and trailer {trail!r} is read (raised {type(e).__name__})', False)], None
+        out = [(f'list line laid out with separator {sep!r} and trailer {trail!r}: same number of entries', len(got) == len(ref))]
+        for i, (a, b) in enumerate(zip(got, ref)):
+            out.append((f'list line laid out with separator {sep!r} and trailer {trail!r}: entry {i} as in the canonical layout', core.near(a, b, 1e-12) if (core.is_sym(a) or core.is_sym(b)) else bool(a == b)))
+        return out, text
+    zv = {n: z3.Real(n) for n in names}
+    try:
+        for sep in LIST_SEPS:
+            for trail in LIST_TRAILS:
+                def concrete(inp, only=None, sep=sep, trail=trail):
+                    vals = {n: float(inp[n]) for n in names}
+                    obs, text = compare(vals, sep, trail, False)
+                    bad = [n for n, ok in obs if not ok and (only is None or n == only)]
+                    return bool(bad), {'failed': bad[:4], 'file text': text}
+
+                def fn(sep=sep, trail=trail):
+                    vals = {n: core.sym(n, *rng[n]) for n in names}
+                    return compare(vals, sep, trail, True)[0]
+                n = 0
+                for pr in core.explore(fn, max_paths=4000):
+                    log.path(pr)
+                    n += 1
+                    if pr.error is not None:
+                        raise pr.error
+                    if pr.aborted:
+                        continue
+                    if n <= 2:
+                        harness.reachable(log, pr.ctx, 2000)
+                    else:
+                        log['reachable'] += 1
+                    for name, cond in pr.value:
+                        harness.discharge(log, pr.ctx, name, cond, zv, lambda inp, name=name, concrete=concrete: concrete(inp, name), timeout_ms=10000,
+                                          sample=(n == 1 and sep == ',' and trail == ''))
+    finally:
+        shutil.rmtree(d, ignore_errors=True)
+    yield log.result()
 
 
 # ---- line-ending styles on real files -------------------------------------------------------------------------------------------
@@ -607,6 +697,9 @@ def run_unit(unit):
         return
     if unit['harness'] == 'line-endings':
         yield from run_line_endings(unit)
+        return
+    if unit['harness'] == 'list-layouts':
+        yield from run_list_layouts(unit)
         return
     h = unit['harness']
     if h == 'tokenizer':
